@@ -90,6 +90,25 @@ def inputs(ctx):
     for _ in range(500 if ctx.quick else 5000):
         ins.append({"id": "pr%d" % n, "k": "pair", "a": rng.choice(allv), "b": rng.choice(allv)})
         n += 1
+    # values that differ only from some decimal on (an equality that compares printed or rounded
+    # values calls them equal), alone and inside every composite
+    near = []
+    for base in ["0", "1", "617/50", "33333/1000", "9999/100", "50"]:
+        for delta in ["1/100", "1/250", "1/1000", "1/100000", "1/1000000000"]:
+            near.append((base, str(Fraction(base) + Fraction(delta))))
+    for u in UNITS:
+        for x, y in (near if not ctx.quick else near[::2]):
+            a, b = ("size", x, u), ("size", y, u)
+            other = ("size", "7", u)
+            for A, B in ((a, b), (("point", a, other), ("point", b, other)), (("point", other, a), ("point", other, b)),
+                         (("stretch", a, other), ("stretch", b, other)),
+                         (("padding", a, None, None, other), ("padding", b, None, None, other)),
+                         (("padding", None, None, a, None), ("padding", None, None, b, None)),
+                         (("layout", ("point", a, other), None, None, None, None), ("layout", ("point", b, other), None, None, None, None)),
+                         (("layout", None, ("stretch", other, a), None, None, None), ("layout", None, ("stretch", other, b), None, None, None))):
+                for P, Q in ((A, B), (B, A), (A, A)):
+                    ins.append({"id": "pr%d" % n, "k": "pair", "a": P, "b": Q})
+                    n += 1
     for k in range(1500 if ctx.quick else 60000):
         digs = rng.randrange(1, 13)
         ip = rng.randrange(10 ** rng.randrange(0, min(digs, 7) + 1))
